@@ -4,14 +4,15 @@
   fact.run <kind> <cap> <res> <scripts> <schedule> <eager>
      kind     lru | gettz | single (slot pre-filled at import, like tzutc) | single0 (fresh class)
      cap      strong-cache size
-     res      `[c0,c1,…]` class of key i for gettz.nocache: 0 cacheable zone, 1 uncached (tzlocal), 2 None
+     res      `[c0,c1,…]` class of key i: 0 new cacheable zone, 1 uncached (tzlocal), 2 None, 3 the constructor raises,
+              10+s the existing shared object of slot s (UTC constant / vendored entry)
      scripts  threads separated by `/`, ops by `,`:  cK call, fK instance/nocache, sN set_cache_size, x cache_clear;  `-` empty
      schedule labels separated by `,`:
                 tI   one model step of thread I                mI  one *statement* of thread I (macro step)
                 rI   run thread I until its current op ends    dI.N drop the N-th reference handed to thread I
                 g    collect every unreferenced weak entry     kK  collect key K
      eager    1: collect every unreferenced weak entry after each label (CPython refcounting), 0: only on g/k
-  → ok pcs=<pc after each t/m/r label, `B` when not enabled> rets=<tid:key:id|-:cached;…>
+  → ok pcs=<pc after each t/m/r label, `B` when not enabled> rets=<tid:key:id|-|!:cached;…>  (`!` = the call raised)
        strong=<key:id,…> weak=<key:id,…> cap=<n> lock=<tid|-> held=<owner.seq:key:id,…>
 
   gettz.resolve <tzvar|-> <tzfiles> <tzpaths> <files> <tzname> <vendored> <tzstrok 0|1> <name|->
@@ -63,7 +64,7 @@ def pcName (p : Pc) : String :=
   match p with
   | .idle => "idle"
   | .lGet => "lGet" | .lTest => "lTest" | .lAlloc => "lAlloc" | .lInit => "lInit" | .lSdRead => "lSdRead" | .lSdWrite => "lSdWrite" | .lAcq => "lAcq"
-  | .xTouch => "xTouch" | .xLen => "xLen" | .xEvict => "xEvict" | .xRel => "xRel" | .xRet => "xRet"
+  | .xTouch => "xTouch" | .xLen => "xLen" | .xEvict => "xEvict" | .xRel => "xRel" | .xRet => "xRet" | .xRelX => "xRelX"
   | .gAcq => "gAcq" | .gGet => "gGet" | .gTest => "gTest" | .gAlloc => "gAlloc" | .gInit => "gInit"
   | .gCheck => "gCheck" | .gStore => "gStore" | .gRelE => "gRelE" | .gRetE => "gRetE"
   | .sAcq => "sAcq" | .sSet => "sSet" | .sLoop => "sLoop" | .sPop => "sPop" | .sRel => "sRel"
@@ -100,7 +101,7 @@ def keysOf (scripts : List (List Op)) : List Key :=
   (scripts.flatten.filterMap fun | .call k => some k | .fresh k => some k | _ => none).eraseDups
 
 def showEv (e : Ev) : String :=
-  s!"{e.tid}:{e.key}:{showOptInt (e.val.map Int.ofNat)}:{if e.cached then 1 else 0}"
+  s!"{e.tid}:{e.key}:{if e.exc then "!" else showOptInt (e.val.map Int.ofNat)}:{if e.cached then 1 else 0}"
 
 def run (kd : Kind) (res : Key → Res) (s0 : State) (keys : List Key) (labs : List Lab) (eager : Bool) : String :=
   let gc (s : State) : State := if eager then collectAll kd res keys s else s
@@ -135,6 +136,8 @@ def resOf (classes : List Int) (k : Key) : Res :=
   match classes[k]? with
   | some 1 => .uncached
   | some 2 => .none
+  | some 3 => .raises
+  | some n => if n ≥ 10 then .shared (n - 10).toNat else .zone
   | _ => .zone
 
 /-- zones on the wire: `u` | `o:<hexname>:<off>` | `l:<std>:<dst>:<0|1>:<hexname0>` | `f:<n>` |
